@@ -256,7 +256,8 @@ class Scope(FortranObj):
                     find_word=use_stmnt.mod_name,
                 )
                 errors.append(new_diag)
-        if (self.implicit_line is not None) and (last_use_line >= self.implicit_line):
+        # (statements that share a line are taken to be in the order required)
+        if (self.implicit_line is not None) and (last_use_line > self.implicit_line):
             new_diag = Diagnostic(
                 self.implicit_line - 1,
                 message="USE statements after IMPLICIT statement",
